@@ -65,6 +65,10 @@ pub struct Variant {
     pub stdin: bool,
     pub rplan: Vec<IoStep>,
     pub wplan: Vec<IoStep>,
+    /// the input arrives through a pipe: with `stdin` as "-", otherwise as the path /dev/stdin
+    /// (a non-regular file: size 0, not seekable)
+    #[serde(default)]
+    pub pipe: bool,
 }
 
 #[derive(Clone, Debug, Serialize, Deserialize, PartialEq, Eq)]
@@ -208,7 +212,12 @@ impl AcctCase {
             if v.stdin {
                 cmd.argv.push("-".into());
                 cmd.stdin = Some(self.input.clone());
+                cmd.stdin_pipe = v.pipe;
                 cmd.rplan = v.rplan.clone();
+            } else if v.pipe {
+                cmd.argv.push("/dev/stdin".into());
+                cmd.stdin = Some(self.input.clone());
+                cmd.stdin_pipe = true;
             } else {
                 cmd.argv.push("input.dat".into());
                 cmd.files.push(NamedFile { name: "input.dat".into(), data: self.input.clone() });
@@ -227,7 +236,7 @@ impl AcctCase {
             Op::SignTyped | Op::HashTyped => Op::HashTyped,
             _ => return Ok(None),
         };
-        let base = Variant { env_mask: 0, stdin: false, rplan: vec![], wplan: vec![] };
+        let base = Variant { env_mask: 0, stdin: false, rplan: vec![], wplan: vec![], pipe: false };
         let mut cmd = self.build(&base, &hop);
         if matches!(self.op, Op::SignTx { .. }) {
             cmd.argv = vec!["hash".into(), "transaction".into(), "input.dat".into()];
@@ -246,7 +255,7 @@ impl AcctCase {
 
     pub fn run(&self, ctx: &Ctx, dir: &Path) -> Result<RunReport, HarnessError> {
         let mut rep = RunReport::default();
-        for p in ["hard_error_fired", "env_variant_run", "stdin_plan_variant_run", "nonzero_account_index", "explicit_hd_path", "nonascii_password", "input_rejected_consistently"] {
+        for p in ["input_through_pipe", "hard_error_fired", "env_variant_run", "stdin_plan_variant_run", "nonzero_account_index", "explicit_hd_path", "nonascii_password", "input_rejected_consistently"] {
             rep.probe(p, false);
         }
         let mut eh = Fnv::new();
@@ -288,11 +297,12 @@ impl AcctCase {
                 rep.nontrivial = true;
             }
             rep.probe("env_variant_run", v.env_mask != 0 && self.op.needs_account());
+            rep.probe("input_through_pipe", v.pipe && self.op.has_input());
             rep.probe("stdin_plan_variant_run", v.stdin && !v.rplan.is_empty());
             hist.push(json!({
                 "variant": vi, "argv": cmd.argv.iter().map(|a| a.chars().take(120).collect::<String>()).collect::<Vec<_>>(),
                 "env": cmd.env.iter().map(|(k, _)| k.clone()).collect::<Vec<_>>(),
-                "channel": if !self.op.has_input() { "none" } else if v.stdin { "stdin" } else { "file" },
+                "channel": if !self.op.has_input() { "none" } else if v.stdin && v.pipe { "stdin (pipe)" } else if v.stdin { "stdin" } else if v.pipe { "/dev/stdin (pipe)" } else { "file" },
                 "read_plan_steps": v.rplan.len(), "write_plan_steps": v.wplan.len(),
                 "status": format!("{:?}", o.status), "stdout": o.stdout_str().chars().take(140).collect::<String>(),
             }));
@@ -676,34 +686,39 @@ pub fn gen_acct_case(rng: &mut Rng) -> AcctCase {
         Op::SignTyped | Op::HashTyped => well_formed_typed_data(rng),
         _ => Vec::new(),
     };
-    let mut variants = vec![Variant { env_mask: 0, stdin: false, rplan: vec![], wplan: vec![] }];
+    let mut variants = vec![Variant { env_mask: 0, stdin: false, rplan: vec![], wplan: vec![], pipe: false }];
     let n = input.len();
     if op == Op::Conflict {
         // every flag/env mix of the two selectors
         variants.clear();
         for m in 0..4u8 {
-            variants.push(Variant { env_mask: (m << 2) | (rng.below(4) as u8), stdin: false, rplan: vec![], wplan: vec![] });
+            variants.push(Variant { env_mask: (m << 2) | (rng.below(4) as u8), stdin: false, rplan: vec![], wplan: vec![], pipe: false });
         }
     } else {
         if op.needs_account() {
             // options through the environment: all, and one seeded mix
-            variants.push(Variant { env_mask: 7, stdin: false, rplan: vec![], wplan: benign_plan(rng, 140) });
-            variants.push(Variant { env_mask: 1 + rng.below(6) as u8, stdin: rng.coin(), rplan: vec![], wplan: vec![] });
+            variants.push(Variant { env_mask: 7, stdin: false, rplan: vec![], wplan: benign_plan(rng, 140), pipe: false });
+            variants.push(Variant { env_mask: 1 + rng.below(6) as u8, stdin: rng.coin(), rplan: vec![], wplan: vec![], pipe: false });
         }
         if op.has_input() {
-            variants.push(Variant { env_mask: 0, stdin: true, rplan: vec![], wplan: vec![] });
-            variants.push(Variant { env_mask: if rng.coin() { 7 } else { 0 }, stdin: true, rplan: benign_plan(rng, n), wplan: benign_plan(rng, 140) });
+            variants.push(Variant { env_mask: 0, stdin: true, rplan: vec![], wplan: vec![], pipe: false });
+            variants.push(Variant { env_mask: if rng.coin() { 7 } else { 0 }, stdin: true, rplan: benign_plan(rng, n), wplan: benign_plan(rng, 140), pipe: false });
             if rng.coin() {
-                variants.push(Variant { env_mask: 0, stdin: false, rplan: benign_plan(rng, n), wplan: vec![] });
+                variants.push(Variant { env_mask: 0, stdin: false, rplan: benign_plan(rng, n), wplan: vec![], pipe: false });
+            }
+            if rng.coin() {
+                // through a pipe: as "-" under a delivery plan, or as the non-regular file /dev/stdin
+                let stdin = rng.coin();
+                variants.push(Variant { env_mask: 0, stdin, rplan: if stdin { benign_plan(rng, n) } else { vec![] }, wplan: vec![], pipe: true });
             }
             if rng.chance(1, 3) {
                 let stdin = rng.coin();
                 let p = benign_plan(rng, n);
                 let calls = (p.len() + 2).min(8);
-                variants.push(Variant { env_mask: 0, stdin, rplan: with_hard_error(rng, p, calls), wplan: vec![] });
+                variants.push(Variant { env_mask: 0, stdin, rplan: with_hard_error(rng, p, calls), wplan: vec![], pipe: false });
             }
         } else if rng.coin() {
-            variants.push(Variant { env_mask: rng.below(8) as u8, stdin: false, rplan: vec![], wplan: benign_plan(rng, 140) });
+            variants.push(Variant { env_mask: rng.below(8) as u8, stdin: false, rplan: vec![], wplan: benign_plan(rng, 140), pipe: false });
         }
     }
     AcctCase { phrase, password, account_index, hd_path, path, op, input, variants }
@@ -748,8 +763,8 @@ impl Plan for C16Plan {
                 op,
                 input: vec![],
                 variants: vec![
-                    Variant { env_mask: 0, stdin: false, rplan: vec![], wplan: vec![] },
-                    Variant { env_mask: 7, stdin: false, rplan: vec![], wplan: vec![IoStep::Chunk(1), IoStep::Eintr, IoStep::Chunk(3)] },
+                    Variant { env_mask: 0, stdin: false, rplan: vec![], wplan: vec![], pipe: false },
+                    Variant { env_mask: 7, stdin: false, rplan: vec![], wplan: vec![IoStep::Chunk(1), IoStep::Eintr, IoStep::Chunk(3)], pipe: false },
                 ],
             };
             return super::AnyCase::Acct(c);
